@@ -26,13 +26,37 @@ pub const HARD_CAP: usize = 3 << 30;
 pub static OVERSIZE_REQUEST: AtomicUsize = AtomicUsize::new(0);
 pub static OVERSIZE_SLOT: AtomicUsize = AtomicUsize::new(usize::MAX);
 
+/// When set, every allocation with alignment 1 (byte buffers: `Vec<u8>`, `String`) is placed at an
+/// ODD address. `GlobalAlloc` only promises the requested alignment, and arena / bump allocators do
+/// hand out such addresses; glibc never does, so code that silently assumes word alignment of a
+/// byte buffer would otherwise never be contradicted. An odd align-1 pointer identifies a block
+/// allocated in this mode (the system allocator's own pointers are 16-aligned).
+pub static ODD_BYTE_BUFFERS: std::sync::atomic::AtomicBool = std::sync::atomic::AtomicBool::new(false);
+
+#[inline]
+fn shifted(layout: Layout) -> Option<Layout> {
+    if layout.align() == 1 && layout.size() > 0 && ODD_BYTE_BUFFERS.load(Ordering::Relaxed) {
+        Layout::from_size_align(layout.size() + 1, 2).ok()
+    } else {
+        None
+    }
+}
+
 unsafe impl GlobalAlloc for CountingAlloc {
     unsafe fn alloc(&self, layout: Layout) -> *mut u8 {
         self.track(layout.size());
+        if let Some(l2) = shifted(layout) {
+            let p = System.alloc(l2);
+            return if p.is_null() { p } else { p.add(1) };
+        }
         System.alloc(layout)
     }
     unsafe fn alloc_zeroed(&self, layout: Layout) -> *mut u8 {
         self.track(layout.size());
+        if let Some(l2) = shifted(layout) {
+            let p = System.alloc_zeroed(l2);
+            return if p.is_null() { p } else { p.add(1) };
+        }
         System.alloc_zeroed(layout)
     }
     unsafe fn dealloc(&self, ptr: *mut u8, layout: Layout) {
@@ -41,9 +65,22 @@ unsafe impl GlobalAlloc for CountingAlloc {
                 let _ = LIVE.try_with(|l| l.set(l.get() - layout.size() as isize));
             }
         });
+        if layout.align() == 1 && (ptr as usize) & 1 == 1 {
+            return System.dealloc(ptr.sub(1), Layout::from_size_align_unchecked(layout.size() + 1, 2));
+        }
         System.dealloc(ptr, layout)
     }
     unsafe fn realloc(&self, ptr: *mut u8, layout: Layout, new_size: usize) -> *mut u8 {
+        if layout.align() == 1 && ((ptr as usize) & 1 == 1 || ODD_BYTE_BUFFERS.load(Ordering::Relaxed)) {
+            // move by hand so that the placement rule of the current mode applies to the new block
+            let new_layout = Layout::from_size_align_unchecked(new_size, 1);
+            let np = self.alloc(new_layout);
+            if !np.is_null() {
+                std::ptr::copy_nonoverlapping(ptr, np, layout.size().min(new_size));
+                self.dealloc(ptr, layout);
+            }
+            return np;
+        }
         if new_size > layout.size() {
             self.track(new_size - layout.size());
         } else {
